@@ -69,6 +69,34 @@ func main() {
 		}
 	}
 	rtBatch(r, rng)
+	// the address-class domain and the NICInfo domain: every class of IPv4 / IPv6 source x {router, own, client, new MAC} x
+	// {IP frame, ARP / NDP}, under the standard configuration and under every NICInfo variant
+	{
+		envs := append([]tables.Cfg{tables.StdCfg()}, tables.EnvCfgs()...)
+		nCls := 6
+		if r.Thorough() {
+			nCls = 60
+		}
+		k := 0
+		for _, ec := range envs {
+			for i := 0; i < nCls; i++ {
+				ops := g.AddressClassHistory(ec, k)
+				k++
+				if i%3 == 1 {
+					ops = tables.RawOps(ops, rng, 0, func(s string) { r.Stat(s, 1) })
+				}
+				ips, macs := tables.Candidates(ec, ops)
+				r.Do("t4", append([]string{ec.Tok(), "0", tables.IPsTok(ips), tables.MacsTok(macs)}, ops...)...)
+				r.Stat("class.address-class-x-nicinfo", 1)
+			}
+			for i := 0; i < 3; i++ { // the usual histories under this NICInfo
+				ops := g.ConflictHistory(6 + rng.Intn(20))
+				ips, macs := tables.Candidates(ec, ops)
+				r.Do("t4", append([]string{ec.Tok(), "0", tables.IPsTok(ips), tables.MacsTok(macs)}, ops...)...)
+				r.Stat("class.nicinfo-conflict", 1)
+			}
+		}
+	}
 	nShort, nLong := 400, 600
 	if r.Thorough() {
 		nShort, nLong = 4000, 15000
